@@ -43,6 +43,14 @@ func syscallNumber(arch, tok string) (int64, bool) {
 	return 0, false
 }
 
+type built struct {
+	line        string
+	live, clone []byte
+}
+
+var builtRing [8]*built
+var builtPos int
+
 // checkEncoding is the C06 oracle for one structurally known rule.
 func checkEncoding(c *enumx.Ctx, s spec) {
 	line := s.line()
@@ -53,6 +61,12 @@ func checkEncoding(c *enumx.Ctx, s spec) {
 			c.Count("rejected", 1)
 			return
 		}
+		// wire data handed out earlier must not change when other rules are built later
+		if old := builtRing[builtPos]; old != nil && !bytes.Equal(old.live, old.clone) {
+			c.Report("C06 earlier-wire-data-changed", fmt.Sprintf("the bytes Build returned for %q changed after %d later Build calls (last: %q)", old.line, len(builtRing), line), nil)
+		}
+		builtRing[builtPos] = &built{line: line, live: wb, clone: append([]byte{}, wb...)}
+		builtPos = (builtPos + 1) % len(builtRing)
 		w, derr := decodeWire(wb)
 		if derr != nil {
 			c.Report("C06 short-wire", fmt.Sprintf("%q: %v", line, derr), nil)
@@ -590,7 +604,91 @@ func checkWatchEncoding(c *enumx.Ctx, ws watchSpec) {
 	})
 }
 
+// accountNames reads the sandbox's passwd / group files itself (the environment the
+// library resolves names in) and returns names that exist in both with different ids.
+func accountNames() (both [][3]string) {
+	read := func(path string) map[string]string {
+		m := map[string]string{}
+		b, err := os.ReadFile(path)
+		if err != nil {
+			return m
+		}
+		for _, l := range strings.Split(string(b), "\n") {
+			f := strings.Split(l, ":")
+			if len(f) >= 3 && f[0] != "" && !strings.HasPrefix(f[0], "#") {
+				if _, dup := m[f[0]]; !dup {
+					m[f[0]] = f[2]
+				}
+			}
+		}
+		return m
+	}
+	u, g := read("/etc/passwd"), read("/etc/group")
+	var names []string
+	for n := range u {
+		names = append(names, n)
+	}
+	sort.Strings(names)
+	for _, n := range names {
+		if gid, ok := g[n]; ok && gid != u[n] {
+			both = append(both, [3]string{n, u[n], gid})
+		}
+	}
+	return both
+}
+
+// c06Names: uid-class and gid-class filters given by NAME, in sequences that would expose
+// state shared between lookups (a name resolved as a user must not answer for the group).
+func c06Names(c *enumx.Ctx) {
+	names := accountNames()
+	c.Count("names_in_both_databases_with_different_ids", int64(len(names)))
+	if c.Shard != 0 {
+		return // one process: the order of the lookups is the point
+	}
+	uf := []string{"uid", "auid", "euid", "suid", "fsuid", "obj_uid"}
+	gf := []string{"gid", "egid", "sgid", "fsgid", "obj_gid"}
+	check := func(field, name, want string) {
+		line := fmt.Sprintf("-a always,exit -F %s=%s", field, name)
+		c.Begin(func() string { return line })
+		c.Try("C06", func() {
+			_, wb, err := build(line)
+			if err != nil {
+				c.Count("rejected", 1)
+				return
+			}
+			w, _ := decodeWire(wb)
+			wv, _ := strconv.ParseUint(want, 10, 32)
+			if w.FieldCount != 1 || w.Fields[0] != uapi(fieldDefine[field]) || uint64(w.Values[0]) != wv {
+				c.Report("C06 value-by-name:"+map[bool]string{true: "uid-class", false: "gid-class"}[uidFields[field]], fmt.Sprintf("%q: value word = %d, the %s database says %s is %s", line, w.Values[0], map[bool]string{true: "passwd", false: "group"}[uidFields[field]], name, want), nil)
+				return
+			}
+			c.Nontrivial()
+		})
+	}
+	for i, n := range names {
+		// even names: user first, then group; odd names: group first, then user
+		if i%2 == 0 {
+			for _, f := range uf {
+				check(f, n[0], n[1])
+			}
+			for _, f := range gf {
+				check(f, n[0], n[2])
+			}
+			check("uid", n[0], n[1])
+		} else {
+			for _, f := range gf {
+				check(f, n[0], n[2])
+			}
+			for _, f := range uf {
+				check(f, n[0], n[1])
+			}
+			check("gid", n[0], n[2])
+		}
+	}
+}
+
 func init() {
+	gens["c06-names"] = c06Names
 	gens["c06-rules"] = func(c *enumx.Ctx) {
 		forRuleSpecs(c, checkEncoding)
 		c.Sample("-a always,exit -F obj_lev_low=s0 -F 'a0&0x3' -S open -k k0 -k k1 => flags=4 action=2 fields [(22,=,len 2) (200,&,3) (210,=,5)] buf \"s0k0\\x01k1\" mask bit 2")
